@@ -12,8 +12,8 @@ from qvm.utils import format_number
 
 LEAN_MODULE = 'QbeeModel.Props.C15'
 REQUIRED = ['pd_no_quotes', 'pd_roundtrip', 'pd_total', 'parts_in_source_order', 'readMany_from_part',
-            'read_sequence', 'read_past_end', 'restore_to_part', 'restore_label_target', 'restore_plain_fails',
-            'restore_plain_partial']
+            'read_sequence', 'read_past_end', 'restore_to_part', 'restore_label_target', 'restore_plain_rewinds',
+            'restore_minus_one_was_wrong']
 ALPHA = 'a1 ,":'
 
 
@@ -425,10 +425,7 @@ def run(chk):
     for (i, has_plain, why, src, o, g) in deviations:
         # the known mechanism (cursor index -1) is exactly what Model/Data.lean does: attribute a deviation to it only
         # when the program executes a RESTORE without label AND the real device followed the model on this program
-        if has_plain and cursor_agrees.get(i, False):
-            sig = 'C15 RESTORE without a label positions the cursor with part index -1'
-        else:
-            sig = 'C15 READ/RESTORE sequence deviates from source order'
+        sig = 'C15 READ/RESTORE sequence deviates from source order'
         hits[sig] = hits.get(sig, 0) + 1
         chk.finding(sig, why, {'kind': 'program', 'src': src, 'O': o, 'g': g})
     dist['programs'] = nprog
@@ -472,7 +469,7 @@ def device_ops(mod, ops, groups):
     for op in ops:
         if op[0] == 'T':
             if op[1] is None:
-                idx = -1
+                idx = 0            # what gen_restore_stmt pushes for RESTORE without a label (as repaired)
             else:
                 name = op[1].lower() if not op[1].isdigit() else '_lineno_' + op[1]
                 cands = [i for i, k in enumerate(keys) if k == name or k == op[1]]
